@@ -40,7 +40,39 @@ def nthreads(sc):
 
 
 def text_of(scs):
-    return ''.join('reset\ncfg %s\nrun %s\n--\n' % (s['cfg'], ' '.join(s['schedule'])) for s in scs)
+    return ''.join(('reset\nnest %s\n--\n' % s['nest']) if 'nest' in s else
+                   ('reset\ncfg %s\nrun %s\n--\n' % (s['cfg'], ' '.join(s['schedule']))) for s in scs)
+
+
+def ident(sc):
+    return ('nest', sc['nest']) if 'nest' in sc else (sc['cfg'], tuple(sc['schedule']))
+
+
+def public(sc):
+    """the part of a scenario that goes into a replay file"""
+    if 'nest' in sc:
+        return {'nest': sc['nest'],
+                'nest_semantics': 'nest = depth msglen held levels where: on ONE thread, contexts 0..held-1 claim a buffer and keep it; then `levels` contexts each run '
+                                  'claim [write send]; immediately before the (where+1)-th atomic operation of a context\'s claim the next context runs its whole '
+                                  'iteration nested inside (interrupt style re-entry); contexts never reached run afterwards'}
+    return {'cfg': sc['cfg'], 'schedule': sc['schedule']}
+
+
+def gen_nest(rng, n):
+    """deep synchronous nesting: more claim contexts than an 8-bit counter can count (> 128), nested inside each other's
+    permission step, on full and nearly full queues; plus shallow ones"""
+    out = []
+    for i in range(n):
+        depth = rng.choice([1, 1, 2, 3, 4])
+        held = rng.choice([depth, depth, max(0, depth - 1), 0])
+        levels = rng.choice([rng.range(129, 140), rng.range(129, 300), rng.range(250, 600), rng.range(2, 20)]) if i else 131
+        where = rng.choice([1, 1, 2, 3])
+        if i == 0:
+            depth, held, where = 1, 1, 1
+        out.append({'nest': f'{depth} 4 {held} {levels} {where}'})
+    return out
+
+
 
 
 def gen_free(rng, big=False):
@@ -151,11 +183,11 @@ def exhaustive_two_senders():
             fill = [f'{i}!' for i in range(held)]
             for seq in interleavings((7, 7)):
                 out.append(scen(depth, 4, 0, 0, progs, fill + [str(held + t) for t in seq]))
-    for (depth, pre) in ((1, ['s1']), (2, ['s1', 'h'])):
+    for (depth, pre, counts) in ((1, ['s1'], (6, 6, 3)), (2, ['s1', 'h'], (5, 5, 3)), (2, ['s1'], (5, 5, 3))):
         progs = pre + ['s1', 's1']
         fill = [f'{i}!' for i in range(len(pre))]
         base = len(pre)
-        for seq in interleavings((6, 6, 3)):
+        for seq in interleavings(counts):
             out.append(scen(depth, 4, 1, 0, progs, fill + [str(base + t) for t in seq]))
     return out
 
@@ -312,6 +344,21 @@ def monitor_complains(lines):
 
 def simpler(sc):
     """strictly simpler variants of a scenario (each reduces receiver attempts, polling, messages, threads or a token)"""
+    if 'nest' in sc:
+        d, m, held, levels, where = [int(x) for x in sc['nest'].split()]
+        def mk(d, held, levels, where):
+            return {'nest': f'{d} {m} {min(held, d)} {levels} {where}'}
+        if d > 1:
+            yield mk(1, held, levels, where)
+            yield mk(d - 1, held - 1, levels, where)
+        if where > 1:
+            yield mk(d, held, levels, 1)
+        for l in (levels // 2, levels - 32, levels - 8, levels - 1):
+            if 1 <= l < levels:
+                yield mk(d, held, l, where)
+        if held > 0:
+            yield mk(d, held - 1, levels, where)
+        return
     w = sc['cfg'].split()
     head, progs = w[:4], w[4:]
     for d in sorted({1, 2, 4, int(head[0]) - 1}):
@@ -345,6 +392,15 @@ def shrink(ctx, exe, sc, fails, max_tests=450):
     def f(c):
         tests[0] += 1
         return fails(c)
+    if 'nest' in sc:
+        cur, progress = dict(sc), True
+        while progress and tests[0] < 200:
+            progress = False
+            for c in simpler(cur):
+                if f(c):
+                    cur, progress = c, True
+                    break
+        return cur
     cur = {'cfg': sc['cfg'], 'schedule': list(sc['schedule'])}
     dd = 120
     if len(cur['schedule']) > 150:       # long runs: every harness run is slow, a rough witness is enough
@@ -366,6 +422,8 @@ def shrink(ctx, exe, sc, fails, max_tests=450):
 
 
 def key_of(sc):
+    if 'nest' in sc:
+        return 'nest:' + sc['nest'].replace(' ', '-')
     return 'sched:' + hashlib.sha1((sc['cfg'] + '|' + ' '.join(sc['schedule'])).encode()).hexdigest()[:16]
 
 
@@ -402,10 +460,13 @@ def check_batch(ctx, exe, scs, label, timeout, stats):
             out = run_impl(exe, [small], 60)[0]
             mout = run_model(ctx, [small], 60)[0]
             k = vlib.diff_streams(out, mout)
+            bad2 = monitor_complains(out)
+            first = out.index(bad2[0]) if bad2 and bad2[0] in out else 0
             ctx.violation({'obligation': f'{label}: ownership monitor on the real messageq.c under a controlled interleaving',
-                           'cfg': small['cfg'], 'schedule': small['schedule'],
-                           'monitor': monitor_complains(out)[:6],
-                           'implementation_log': out[:60], 'model_log': mout[:60], 'first_difference_at_line': k,
+                           **public(small),
+                           'monitor': bad2[:6],
+                           'implementation_log': out[:60] if first < 60 else out[:8] + ['...'] + out[first - 30:first + 8],
+                           'model_log': mout[:60] if first < 60 else mout[:8], 'first_difference_at_line': k,
                            'token_semantics': 'cfg = depth msglen receiver-attempts poll sender-programs (s<k>: k messages, h: claim and hold); '
                                               'schedule token t = one atomic/plain operation of thread t, t! = until its iteration completes; receiver = last thread id',
                            'how_to_rerun': f'./check {ctx.pid} --replay <this file>'}, key=key_of(small))
@@ -418,7 +479,7 @@ def check_batch(ctx, exe, scs, label, timeout, stats):
         sc, io, mo = first_diff
         k = vlib.diff_streams(io, mo)
         ctx.broken.append(f'correspondence {label}: per-operation log of the implementation differs from the model at line {k} '
-                          f'(monitor silent) cfg="{sc["cfg"]}" schedule="{" ".join(sc["schedule"])[:200]}": impl={io[max(0, (k or 0) - 1):(k or 0) + 2]} model={mo[max(0, (k or 0) - 1):(k or 0) + 2]}')
+                          f'(monitor silent) scenario={json.dumps(public(sc))[:300]}: impl={io[max(0, (k or 0) - 1):(k or 0) + 2]} model={mo[max(0, (k or 0) - 1):(k or 0) + 2]}')
     return agreed
 
 
@@ -426,7 +487,7 @@ def corpus():
     out = []
     for p in sorted(glob.glob(os.path.join(vlib.VERIF, 'corpus', 'C04', '*.json'))):
         j = json.load(open(p))
-        out.append({'cfg': j['cfg'], 'schedule': j['schedule']})
+        out.append({'nest': j['nest']} if 'nest' in j else {'cfg': j['cfg'], 'schedule': j['schedule']})
     return out
 
 
@@ -445,12 +506,13 @@ def run(ctx):
               ('free-preemption', [gen_free(rng) for _ in range(120 if quick else 5000)]),
               ('interrupt-nesting', [gen_isr(rng) for _ in range(80 if quick else 3000)])]
     groups.append(('long-sequential', gen_long_sequential(rng, 2 if quick else 10)))
+    groups.append(('deep-synchronous-nesting', gen_nest(rng, 10 if quick else 400)))
     if not quick:
         l1, _ = sweep_level1(exe)
         groups.append(('preemption-sweep-level-1', l1))
         ex = exhaustive_two_senders()
         groups.append(('exhaustive-two-senders', ex))
-        ctx.cov['exhaustive'] = f'{len(ex)} schedules: every interleaving of two single-message senders (7 operations each) on depth 1-2 with 0..depth buffers pre-held, and every interleaving of two senders (6 operations each) with the receiver\'s receive/read/release of an already sent message on depth 1 and 2'
+        ctx.cov['exhaustive'] = f'{len(ex)} schedules: every interleaving of two single-message senders (7 operations each) on depth 1-2 with 0..depth buffers pre-held, and every interleaving of two senders (6 operations each on depth 1; their first 5 on depth 2) with the receiver\'s receive/read/release of an already sent message'
     total_agreed, per_group = 0, {}
     for (label, scs) in groups:
         nviol = len(ctx.violations)
@@ -462,7 +524,7 @@ def run(ctx):
         per_group[label] = {'scenarios': len(scs), 'agreed': a}
         total_agreed += a
         for sc in scs:
-            ctx.count((sc['cfg'], tuple(sc['schedule'])), nontrivial=len(sc['schedule']) >= 3)
+            ctx.count(ident(sc), nontrivial='nest' in sc or len(sc['schedule']) >= 3)
         if ctx.violations:
             break
     if ctx.broken and not ctx.violations:
@@ -473,8 +535,7 @@ def run(ctx):
             out = run_impl(exe, [small], 60)[0]
             bad = monitor_complains(out)
             first = out.index(bad[0]) if bad and bad[0] in out else 0
-            ctx.violation({'obligation': f'deep search ({label}): ownership monitor on the real messageq.c', 'cfg': small['cfg'], 'schedule_tokens': len(small['schedule']),
-                           'schedule': small['schedule'], 'monitor': bad[:6], 'implementation_log_around_first_complaint': out[max(0, first - 24):first + 6],
+            ctx.violation({'obligation': f'deep search ({label}): ownership monitor on the real messageq.c', **public(small), 'monitor': bad[:6], 'implementation_log_around_first_complaint': out[max(0, first - 24):first + 6],
                            'implementation_log_tail': out[-6:],
                            'token_semantics': 'cfg = depth msglen receiver-attempts poll sender-programs (s<k>: k messages, h: claim and hold); '
                                               'schedule token t = one atomic/plain operation of thread t, t! = until its iteration completes; receiver = last thread id',
@@ -489,6 +550,8 @@ def run(ctx):
             return False, impl
         deep_counts = {}
         found, _ = search(gen_long_sequential(rng, 13), 'long sequential runs')
+        if not found:
+            found, _ = search(gen_nest(rng, 300), 'deep synchronous nesting')
         if not found:
             l1, m1 = sweep_level1(exe)
             found, logs1 = search(l1, 'preemption sweep, one preemption at every operation position')
@@ -508,7 +571,7 @@ def run(ctx):
     g = groups[1][1]
     ctx.sample(g[0]); ctx.sample(groups[2][1][0]); ctx.sample(groups[3][1][0])
     ctx.cov['rule'] = ('scenario = (depth 1-4 or 32, 1-7 senders each sending 1-3 (depth 32: 6-14) messages or claiming one buffer and holding it, receiver attempts, polling) + a schedule of thread ids; '
-                       'generators: long sequential runs (>= 300 cycles on depths not dividing 256); queue filled then >= 2 claims interleaved at single-operation granularity incl. whole claims nested inside a failing claim\'s decrement/re-increment window; '
+                       'generators: long sequential runs (>= 300 cycles on depths not dividing 256); deep synchronous nesting of 129..600 claim contexts inside each other\'s permission step (one OS thread, re-entry from the shim hook); queue filled then >= 2 claims interleaved at single-operation granularity incl. whole claims nested inside a failing claim\'s decrement/re-increment window; '
                        'random free preemption; nested run-to-completion (interrupt style); compared per scenario: full per-operation log of the real code vs the Lean model, and the harness\'s ownership monitor; '
                        'distinct = distinct (cfg, schedule); non-trivial = at least 3 tokens')
     ctx.assumptions.append(META['level_note'])
@@ -516,17 +579,17 @@ def run(ctx):
 
 def replay(ctx, path):
     r = json.load(open(path))
-    if 'schedule' not in r:
+    if 'schedule' not in r and 'nest' not in r:
         print('replay names a broken obligation, not a schedule:', r.get('obligation'))
         return 1
     exe = harness(ctx)
     if not ctx.build_model():
         return 2
-    sc = {'cfg': r['cfg'], 'schedule': r['schedule']}
+    sc = {'nest': r['nest']} if 'nest' in r else {'cfg': r['cfg'], 'schedule': r['schedule']}
     io = run_impl(exe, [sc], 60)[0]
     mo = run_model(ctx, [sc], 60)[0]
-    print('cfg', sc['cfg']); print('schedule', ' '.join(sc['schedule']))
-    print('implementation:'); print('\n'.join('  ' + l for l in io))
+    print(json.dumps(public(sc))[:2000])
+    print('implementation:'); print('\n'.join('  ' + l for l in (io if len(io) < 200 else io[:40] + ['  ...'] + io[-80:])))
     k = vlib.diff_streams(io, mo)
     bad = monitor_complains(io)
     if k is not None:
